@@ -353,6 +353,12 @@ def gen_xmit(rng, n):
             s_ = szx if rng.random() < 0.92 else rng.randrange(7)
             items.append("%d.%d" % (k, s_))
         mtu2 = rng.choice([1152, 1152, c + rng.randrange(8, 24), rng.randrange(10, c + 40)])
+        if rng.random() < 0.35:
+            # the first response (coap_add_data_large_response) on a small PDU: the server reduces the block size itself
+            mtu1 = rng.choice([rng.randrange(20, 160), rng.randrange(60, 1200), (1 << rng.randrange(4, 11)) + rng.randrange(50, 75)])
+            b = max(0, min(szx, 6, (max(mtu1 - 60, 16)).bit_length() - 5))
+            items = [("%s.%d" % (x.split(".")[0], b)) if rng.random() < 0.9 else x for x in items]
+            L.append("xmit2 %d %d %d %d:%d %s" % (szx, ln, rng.randrange(256), mtu1, rng.choice([1152, mtu1]), ",".join(items) or "-"))
         L.append("xmit2 %d %d %d %d %s" % (szx, ln, rng.randrange(256), mtu2, ",".join(items) or "-"))
         # ---- client, Block1: 2.31 in order / duplicated / stale, early renegotiation to a smaller or a LARGER size,
         # final 2.04, error codes
